@@ -170,7 +170,7 @@ Definition id_tail (c : cfg) (r : req) (st : state) (ts : Z) (u : uval) (tokens 
   match reissue_time c with
   | Some rt =>
       if negb (reissued st) && cmp_eval reissue_cmp (now2 r - 2 * ts) (2 * rt) then
-        match remember H c r u (max_age c) (filter nonempty tokens) with
+        match remember H c (later r) u (max_age c) (filter nonempty tokens) with
         | None => (st, IRaise)
         | Some hs => (mkSt true (revoked st) (callbacks st ++ [hs]), ISome ts u (filter nonempty tokens) ud)
         end
@@ -262,6 +262,14 @@ Proof.
   destruct (step H dsz uni c r st o) as [st1 x]. rewrite IH. reflexivity.
 Qed.
 
+Theorem gen_run_ops2_is_model c0 r0 c1 r1 ops : forall st,
+  gen_run_ops2 H dsz uni c0 r0 c1 r1 st ops = run_ops2 H dsz uni c0 r0 c1 r1 st ops.
+Proof.
+  induction ops as [|[b o] ops IH]; intros st; [reflexivity|].
+  cbn [gen_run_ops2 run_ops2]. rewrite !gen_step_is_model.
+  destruct (if b then step H dsz uni c1 r1 st o else step H dsz uni c0 r0 st o) as [st1 x]. rewrite IH. reflexivity.
+Qed.
+
 End G.
 
 (* ================================================================== the property theorems, about the regenerated program *)
@@ -323,5 +331,13 @@ Proof.
   destruct (remember H c r u ma toks) as [hs'|] eqn:R; [|discriminate].
   intros E Hin. inversion E; subst. eapply cookie_attributes_remember; eauto.
 Qed.
+
+Theorem gen_two_helpers_accept_implies_digest c0 r0 c1 r1 ops st :
+  (forall a x, forallb valid_scalar (H a x) = true) ->
+  (forall ck0, cookie r0 = Some ck0 -> forallb valid_scalar ck0 = true) ->
+  (forall ck0, cookie r1 = Some ck0 -> forallb valid_scalar ck0 = true) ->
+  Forall2 (fun (bo : bool * op) x => if fst bo then answer_ok H dsz uni c1 r1 x else answer_ok H dsz uni c0 r0 x)
+          ops (snd (gen_run_ops2 H dsz uni c0 r0 c1 r1 st ops)).
+Proof. rewrite gen_run_ops2_is_model. apply two_helpers_accept_implies_digest. Qed.
 
 End GenProps.
